@@ -80,3 +80,10 @@ outer:
 // '<' or '='.
 var HTMLBytesNoLtEq = without(HTMLBytes, "<=")
 var HTMLFullNoLtEq = without(HTMLFull, "<=")
+
+// HTMLMid: a 60-symbol subset of HTMLFull for three-atom enumeration in quick tiers.
+var HTMLMid = []string{
+	"<", ">", "/", "=", "'", "\"", "`", "!", "-", "?", "%", "[", "]", "&", "#", ";", ":", "x", "a", "\x00", " ", "\t", "\n", "\r",
+	"<!--", "-->", "<![CDATA[", "]]>", "<%", "%>", "</", "/>", "doctype", "[if", "xml", "import", "script", "svt", "b", "href", "style", "onclick", "on",
+	"xmlns", "attributename", "javascript:", "data:", "&#106;", "&#x6a", "&#", "iframe", "xss", "\xc5\xbf", "&#60;", "\x80", "<a ", "<a b=", "x' ", "x\" ", "x` ",
+}
